@@ -361,6 +361,7 @@ pub fn exec(plan: &Plan, reg: &qrun::Registry) -> Result<Facts, (String, String)
                 return Ok(f);
             }
             let before_bc = before_bytecode(before, reg);
+            let wall_hits = crate::qrun::wall_hits();
             let (runs, facts) = pack::run_all(&c, &before_bc, reg);
             f.runs = runs.len() as u32;
             let what = format!("--- program ---\n{}\n(merged behind {} programs)", truncate(src, 1500), before_bc.len());
@@ -368,7 +369,7 @@ pub fn exec(plan: &Plan, reg: &qrun::Registry) -> Result<Facts, (String, String)
             let sync_ok = matches!(reference.1, Res::Val(_) | Res::Err(_));
             let merged: Vec<(String, Res)> = runs.iter().filter(|r| r.name.contains("merged")).map(|r| (r.name.to_string(), r.res.clone())).collect();
             let sync: Vec<(String, Res)> = runs.iter().skip(1).filter(|r| !r.name.contains("merged")).map(|r| (r.name.to_string(), r.res.clone())).collect();
-            if matches!(reference.1, Res::Diverged) || merged.iter().any(|(_, r)| matches!(r, Res::Diverged)) {
+            if wall_hits != crate::qrun::wall_hits() || matches!(reference.1, Res::Diverged) || merged.iter().any(|(_, r)| matches!(r, Res::Diverged)) {
                 f.discarded = true;
                 return Ok(f);
             }
